@@ -1341,6 +1341,9 @@ class Interp(object):
         return self.lift(raw)
 
     def setattr(self, v, name, value, node=None):
+        if name == '_context' and isinstance(v, Obj) and \
+                value is self.ghost.get('ctx'):
+            return          # the request context: read back through the hook
         if isinstance(v, Obj):
             nf = none_flag(v)
             if not (isinstance(nf, bool) and not nf):
@@ -1971,8 +1974,74 @@ class Interp(object):
             r = handler(self, node, frame, spec)
             if r is not NotImplemented:
                 return
-        # default: bounded unrolling is not sound; havoc-based treatment
-        self.undecided('while loop without a model', node)
+        if spec is not None:
+            return self.symbolic_while(node, frame, spec, ordinal)
+        # a loop whose condition is a concrete value at every test (a
+        # counter) is executed as it is: complete unrolling, no bound assumed
+        n = 0
+        while True:
+            c = self.eval(node.test, frame)
+            if not is_concrete(c):
+                self.undecided('while loop with a symbolic condition and no '
+                               'model', node)
+            if not c:
+                self.exec_block(node.orelse, frame)
+                return
+            n += 1
+            if n > 1000:
+                self.undecided('while loop: more than 1000 iterations', node)
+            try:
+                self.exec_block(node.body, frame)
+            except _Break:
+                return
+            except _Continue:
+                continue
+
+    def symbolic_while(self, node, frame, spec, ordinal):
+        """`while` with a sidecar invariant, inductive treatment:
+        exit: havoc the assigned locals, assume invariant and not(test), run
+              the else clause, go on after the loop;
+        iter: havoc, assume invariant and test, run the body once; `break`
+              leaves the loop, otherwise the invariant is obliged again."""
+        name = spec.name or '%s#%d' % (frame.qualname, ordinal)
+        for k, f in enumerate(spec.invariant(self, frame, None, None)
+                              if spec.invariant else []):
+            self.ex.oblige('%s.init.%d' % (name, k), f, 'A')
+        if spec.on_entry is not None:
+            spec.on_entry(self, frame, None)
+        bound, mutated = source.assigned_names(node.body)
+        for nm in sorted((bound | mutated) - set(spec.keep)):
+            holder = _find_holder(frame, nm)
+            if holder is None:
+                continue
+            try:
+                holder.locals[nm] = self.havoc_value(holder.locals[nm], nm)
+            except Undecided:
+                holder.locals[nm] = Opaque('havocked local %s' % nm)
+        for mf in spec.modifies_fields:
+            self.havoc_field(mf[0], mf[1], keep_null=len(mf) > 2)
+        if spec.modifies_db:
+            self.db.havoc(spec.modifies_db)
+        mode = self.ex.choose(2, tag=name)
+        if spec.invariant is not None:
+            for f in spec.invariant(self, frame, None, None):
+                self._assume_or_hyp(f)
+        tt = self.truth_term(self.eval(node.test, frame))
+        if mode == 0:
+            self.ex.assume(z3.Not(ops.z3bool(tt)))
+            self.exec_block(node.orelse, frame)
+            return
+        self.ex.assume(ops.z3bool(tt))
+        try:
+            self.exec_block(node.body, frame)
+        except _Continue:
+            pass
+        except _Break:
+            return
+        if spec.invariant is not None:
+            for k, f in enumerate(spec.invariant(self, frame, None, None)):
+                self.ex.oblige('%s.step.%d' % (name, k), f, 'A')
+        raise PathEnd()
 
     def exec_For(self, node, frame):
         ordinal = self.loop_ordinal(node, frame)
@@ -3010,6 +3079,13 @@ class _StrMethod(object):
             if isinstance(recv, Sym) and not args:
                 return Sym(f(recv.t), 'str')
             return I.fresh('str_' + self.name, 'str')
+        if self.name in ('startswith', 'endswith') and len(args) == 1 and \
+                isinstance(recv, Sym) and \
+                (isinstance(args[0], str) or
+                 (isinstance(args[0], Sym) and args[0].ty == 'str')):
+            # an uninterpreted but functional predicate of (string, affix)
+            f = z3.Function('str_' + self.name, StrSort, StrSort, z3.BoolSort())
+            return Sym(f(recv.t, to_term(args[0], 'str')), 'bool')
         if self.name in ('startswith', 'endswith', 'isdigit'):
             return I.fresh('str_' + self.name, 'bool')
         if self.name in ('split', 'partition', 'rpartition', 'rsplit'):
